@@ -212,6 +212,7 @@ void run_reset(uint64_t junk_seed, ReusePolicy reuse, int redzone) {
     g.conc = false; g.yield_hook = nullptr;
     g.loads = g.stores = g.edges = 0;
     g.giant_lo = g.giant_hi = 0;
+    g.step_budget = 30000000ull;
 }
 
 // ---------------------------------------------------------------- heap
@@ -375,12 +376,17 @@ void heap_free(int mgr, void* p) {
         return;
     }
     Arena& a = g_arena[A_HEAP];
+    if (b->size && !(a.shadow[b->off] & P_W) && (a.shadow[b->off] >> 2) == RS_CONST_ARG) {
+        c->in_call = saved_in;
+        violate(V_STORE_CONST_ARG, "release of blk#" + std::to_string(b->serial) + " (size " + std::to_string(b->size) + "), which belongs to a read-only argument of a call in progress", true);
+        return;
+    }
     if (!heap_redzones_intact(*b)) {
         c->in_call = saved_in;
         violate(V_HEAP_OVERFLOW, "red zone of blk#" + std::to_string(b->serial) + " (size " + std::to_string(b->size) + ") was overwritten by code the monitor does not see", true);
         return;
     }
-    b->live = 0; g.live_blocks--; g.hs.frees++;
+    b->live = 0; g.live_blocks--; g.hs.frees++; c->released_total++;
     if (b->size) {
         memset((void*)(a.base + b->off), 0xDD, b->size);
         memset(a.shadow + b->off, perm(0, RS_FREED), b->size);
@@ -567,9 +573,9 @@ void __sanitizer_cov_trace_pc_guard_init(uint32_t* start, uint32_t* stop) {
 void __sanitizer_cov_pcs_init(const uintptr_t* beg, const uintptr_t* end) { if (!g_pcs_beg) { g_pcs_beg = beg; g_pcs_end = end; } }
 void __sanitizer_cov_trace_pc_guard(uint32_t* guard) {
     g.edges++;
-    if (g.cur->in_call && ++g.cur->steps > 30000000ull) {   // step budget per library call: a call that does not return is a crash-class violation
+    if (g.cur->in_call && ++g.cur->steps > g.step_budget) {   // step budget per library call: a call that does not return is a crash-class violation
         g.cur->steps = 0;
-        violate(V_CRASH, "library call exceeded the step budget of 30M control-flow edges (no progress)", true);
+        violate(V_CRASH, "library call exceeded the step budget of " + std::to_string(g.step_budget / 1000000) + "M control-flow edges (no progress)", true);
     }
     g_guard_hit[*guard] = 1;
     if (g.yield_hook) g.yield_hook((int)*guard);
